@@ -117,6 +117,9 @@ Fixpoint xwf_doc (d : xdoc) : bool :=
     end && xwf_doc r
   end.
 
+(* the image of the strict reader (proofs/ParseImageP.v: in_image_iff) *)
+Definition in_image (t : tree) : Prop := exists d, xwf_doc d = true /\ t = xtree_of d.
+
 (* ---------------- content ---------------- *)
 Definition pay_values (p : xpay) : list str := match p with PVal t => [t] | _ => [] end.
 Definition xfield_value (f : xfield) : str :=
